@@ -311,6 +311,7 @@ struct is_permutation_range_printer {
 template <
     typename Type = trompeloeil::wildcard,
     typename C,
+    typename = typename std::enable_if<impl::is_range_v<C>>::type,
     typename R = make_matcher_return<
         Type,
         impl::is_permutation_range_checker,
